@@ -319,6 +319,47 @@ func body(c *vk.Ctx) {
 	wg.Wait()
 	c.Bound("A1_cases", (len(f.recs))*len(authors)*len(cites)*4)
 	c.Require(accepted > 10 && rejected > 10, "vacuity: A1 accepted %d and rejected %d cases", accepted, rejected)
+	// ---- A3: merge changes -------------------------------------------------------------------------------
+	// two concurrent owner changes citing r[p1] and r[p2]; the case change names both as parents (in that order) and
+	// cites `cite`; every pair p1 != p2, every author, every cited record, and both id orders of the two parents
+	a3 := 0
+	for p1 := range f.recs {
+		for p2 := range f.recs {
+			if p1 == p2 {
+				continue
+			}
+			for _, au := range authors {
+				for ci, cite := range cites {
+					for _, firstLess := range []bool{true, false} {
+						p1, p2, au, ci, cite, firstLess := p1, p2, au, ci, cite, firstLess
+						a3++
+						run(func() { mergeCase(c, f, p1, p2, au, ci, cite, firstLess) })
+					}
+				}
+			}
+		}
+	}
+	wg.Wait()
+	c.Bound("A3_merge_cases", a3)
+	// ---- A4: a refused batch leaves no trace in what the tree does next ---------------------------------------
+	// tree with two heads of different depth (root <- base <- a <- c and base <- b, with a < b so that b is presented
+	// last, and c greater / smaller than b); an unauthorised change on a, b or c is refused; then the owner continues
+	// from c, from b, or merges both. Everything observable (verdict, append / rebuild mode, heads, iteration, stored
+	// changes with their order ids) must equal that of a twin tree that never saw the refused change.
+	a4 := 0
+	for _, cGreater := range []bool{true, false} {
+		for _, badParent := range []string{"a", "b", "c"} {
+			for _, au := range []string{"N", "G", "W"} {
+				for _, cont := range []string{"c", "b", "b,c"} {
+					cGreater, badParent, au, cont := cGreater, badParent, au, cont
+					a4++
+					run(func() { continueCase(c, f, cGreater, badParent, au, cont) })
+				}
+			}
+		}
+	}
+	wg.Wait()
+	c.Bound("A4_continue_after_refusal_cases", a4)
 	// ---- A2 -------------------------------------------------------------------------------------------
 	vals := vk.Pick(c, 6, 255)
 	c.Bound("A2_byte_values_per_offset", vals)
@@ -409,6 +450,181 @@ func positionCase(c *vk.Ctx, f *fixture, pi int, au string, ci int, cite string,
 		c.Sample(map[string]any{"family": "A1", "case": label, "verdict": verdict, "error": fmt.Sprint(err)})
 	}
 	return gotAccepted
+}
+
+// mergeCase: see A3 in body.
+func mergeCase(c *vk.Ctx, f *fixture, p1, p2 int, au string, ci int, cite string, firstLess bool) {
+	w := f.newWorld()
+	var b1, b2 *treechangeproto.RawTreeChangeWithId
+search:
+	for i := 0; i < 16; i++ {
+		b1 = w.build(f.sim.Acc("O"), f.recs[p1], []string{f.root.Id}, f.root.Id, fmt.Sprintf("left-%d", i), 1700000100)
+		for k := 0; k < 64; k++ {
+			b2 = w.build(f.sim.Acc("O"), f.recs[p2], []string{f.root.Id}, f.root.Id, fmt.Sprintf("right-%d", k), 1700000100)
+			if (b1.Id < b2.Id) == firstLess {
+				break search
+			}
+			b2 = nil
+		}
+	}
+	label := fmt.Sprintf("author=%s cites=r%d parents-cite=[r%d,r%d] first-parent-id-less=%v", au, ci, p1, p2, firstLess)
+	if ci == len(f.recs) {
+		label = fmt.Sprintf("author=%s cites=unknown parents-cite=[r%d,r%d] first-parent-id-less=%v", au, p1, p2, firstLess)
+	}
+	rep := acase{"A3", label}
+	if b2 == nil {
+		c.Broken("A3 %s: none of 16 x 64 contents gives the wanted id order", label)
+		return
+	}
+	for _, b := range []*treechangeproto.RawTreeChangeWithId{b1, b2} {
+		if _, err := w.add([]string{b.Id}, b); err != nil {
+			c.Violation("authorised-change-rejected:author=O:merge-parent", fmt.Sprintf("A3 %s: an owner's change on the root was rejected: %v", label, err), rep)
+			return
+		}
+	}
+	hi := max(p1, p2)
+	want := ci < len(f.recs) && f.canWrite[au][ci] && ci >= hi
+	tc := w.build(f.sim.Acc(au), cite, []string{b1.Id, b2.Id}, f.root.Id, "merge", 1700000200)
+	before := w.snap()
+	var err error
+	var res objecttree.AddResult
+	panicked, what := vk.Recover(func() { res, err = w.add([]string{tc.Id}, tc) })
+	c.Count("evaluations", 1)
+	c.Count("executions", 1)
+	if panicked {
+		c.Violation("panic:"+vk.PanicSite(what), "A3 "+label+": "+what, rep)
+		return
+	}
+	got := false
+	for _, a := range res.Added {
+		got = got || a.Id == tc.Id
+	}
+	if has, _ := w.st.Has(ctx, tc.Id); has {
+		got = true
+	}
+	c.Distinct("distinct", fmt.Sprintf("A3|%s|c%d|p%d,%d|%v|%v", au, ci, p1, p2, firstLess, got))
+	if got && !want {
+		c.Violation(fmt.Sprintf("unauthorised-change-accepted:merge:author=%s:%s", au, reason(f, au, ci, hi)), "A3 "+label+": the merge change was attached / stored", rep)
+	}
+	if !got && want {
+		c.Violation(fmt.Sprintf("authorised-change-rejected:merge:author=%s", au), fmt.Sprintf("A3 %s: a merge change the author was entitled to make was rejected (%v)", label, err), rep)
+	}
+	if err != nil {
+		if after := w.snap(); after != before {
+			c.Violation("rejected-batch-changed-state:merge:"+diffField(before, after), fmt.Sprintf("A3 %s: AddRawChanges failed (%v) but heads / iteration / storage changed", label, err), rep)
+		}
+	}
+	for _, fd := range w.judgeState(nil) {
+		c.Violation(fd.key, "A3 "+label+": "+fd.what, rep)
+	}
+}
+
+// orders renders the stored (id, order id) sequence.
+func (w *world) orders() string {
+	var st []string
+	_ = w.st.GetAfterOrder(ctx, "", func(_ context.Context, c objecttree.StorageChange) (bool, error) {
+		st = append(st, short(c.Id)+"@"+c.OrderId)
+		return true, nil
+	})
+	return strings.Join(st, " ")
+}
+
+// continueCase: see A4 in body. W cites r4 (the record that removed it): refused as well.
+func continueCase(c *vk.Ctx, f *fixture, cGreater bool, badParent, au, cont string) {
+	label := fmt.Sprintf("c-id-greater-than-b=%v refused-author=%s refused-parent=%s continue-from=%s", cGreater, au, badParent, cont)
+	rep := acase{"A4", label}
+	last := f.recs[len(f.recs)-1]
+	owner := f.sim.Acc("O")
+	mk := func() (*world, map[string]*treechangeproto.RawTreeChangeWithId, bool) {
+		w := f.newWorld()
+		m := map[string]*treechangeproto.RawTreeChangeWithId{}
+		m["base"] = w.build(owner, last, []string{f.root.Id}, f.root.Id, "base", 1700000100)
+		// a < b; c on a with c > b or c < b
+		found := false
+		for i := 0; i < 64 && !found; i++ {
+			m["a"] = w.build(owner, last, []string{m["base"].Id}, f.root.Id, fmt.Sprintf("a-%d", i), 1700000110)
+			m["b"] = w.build(owner, last, []string{m["base"].Id}, f.root.Id, fmt.Sprintf("b-%d", i), 1700000111)
+			if m["a"].Id >= m["b"].Id {
+				continue
+			}
+			for j := 0; j < 64 && !found; j++ {
+				m["c"] = w.build(owner, last, []string{m["a"].Id}, f.root.Id, fmt.Sprintf("c-%d", j), 1700000120)
+				found = (m["c"].Id > m["b"].Id) == cGreater
+			}
+		}
+		if !found {
+			return nil, nil, false
+		}
+		for _, n := range []string{"base", "a", "b", "c"} {
+			heads := []string{m[n].Id}
+			if n == "c" {
+				heads = []string{m["b"].Id, m["c"].Id}
+				sort.Strings(heads)
+			}
+			if _, err := w.add(heads, m[n]); err != nil {
+				return nil, nil, false
+			}
+		}
+		return w, m, true
+	}
+	w, m, ok1 := mk()
+	twin, _, ok2 := mk()
+	if !ok1 || !ok2 {
+		c.Broken("A4 %s: could not build the two-headed tree", label)
+		return
+	}
+	cite := last
+	if au == "W" {
+		cite = f.recs[4]
+	}
+	bad := w.build(f.sim.Acc(au), cite, []string{m[badParent].Id}, f.root.Id, "refused", 1700000200)
+	heads := []string{bad.Id}
+	for _, h := range []string{"b", "c"} {
+		if h != badParent {
+			heads = append(heads, m[h].Id)
+		}
+	}
+	sort.Strings(heads)
+	before := w.snap()
+	_, err := w.add(heads, bad)
+	c.Count("evaluations", 1)
+	c.Count("executions", 2)
+	if err == nil {
+		c.Violation("unauthorised-change-accepted:A4:author="+au, "A4 "+label+": the unauthorised change was not refused", rep)
+		return
+	}
+	if after := w.snap(); after != before {
+		c.Violation("rejected-batch-changed-state:A4:"+diffField(before, after), fmt.Sprintf("A4 %s: AddRawChanges failed (%v) but heads / iteration / storage changed", label, err), rep)
+		return
+	}
+	var parents []string
+	for _, n := range strings.Split(cont, ",") {
+		parents = append(parents, m[n].Id)
+	}
+	next := w.build(owner, last, parents, f.root.Id, "continued", 1700000300)
+	nh := []string{next.Id}
+	for _, h := range []string{"b", "c"} {
+		if !strings.Contains(","+cont+",", ","+h+",") {
+			nh = append(nh, m[h].Id)
+		}
+	}
+	sort.Strings(nh)
+	r1, e1 := w.add(nh, next)
+	r2, e2 := twin.add(nh, next)
+	c.Distinct("distinct", fmt.Sprintf("A4|%s|%v|%v", label, e1 == nil, r1.Mode))
+	switch {
+	case (e1 == nil) != (e2 == nil):
+		c.Violation("refused-batch-changes-next-verdict", fmt.Sprintf("A4 %s: the owner's next change ends %v after the refusal but %v on a tree that never saw the refused change", label, e1, e2), rep)
+	case r1.Mode != r2.Mode:
+		c.Violation("refused-batch-changes-next-mode", fmt.Sprintf("A4 %s: the owner's next change is reported with mode %v after the refusal but %v on a tree that never saw the refused change", label, r1.Mode, r2.Mode), rep)
+	case w.snap() != twin.snap():
+		c.Violation("refused-batch-changes-next-state:"+diffField(twin.snap(), w.snap()), fmt.Sprintf("A4 %s: after the owner's next change heads / iteration / storage differ from a tree that never saw the refused change", label), rep)
+	case w.orders() != twin.orders():
+		c.Violation("refused-batch-changes-stored-order", fmt.Sprintf("A4 %s: stored order ids after the owner's next change: %s; on a tree that never saw the refused change: %s", label, w.orders(), twin.orders()), rep)
+	}
+	for _, fd := range w.judgeState(nil) {
+		c.Violation(fd.key, "A4 "+label+": "+fd.what, rep)
+	}
 }
 
 func reason(f *fixture, au string, ci, pi int) string {
